@@ -379,7 +379,8 @@ theorem indentOpts_total (ed : Editor α) (lv : Int) (o : Options α) :
 theorem insertDefTableOpts_total (hs : cx.Sane) (ed : Editor α) (pos : Int)
     (defs : List (List α × List α)) (w : Int) (o : Options α) :
     ∃ r, ed.insertDefTableOpts cx pos defs w o = .ok r := by
-  unfold Editor.insertDefTableOpts
+  simp only [Editor.insertDefTableOpts_eq_core]
+  unfold Editor.insertDefTableOptsCore
   dsimp only
   refine bind_total (foldlM_total _ (fun full item => ?_) defs []) (fun full _ => ?_)
   · split
